@@ -1538,7 +1538,7 @@ class Dosini(object):
             entry = output[name]
 
             for key in ['description', 'type', 'data-in']:
-                if key in entry:
+                if entry.get(key) is not None:
                     cfg.set(name, key, str(entry[key]))
 
             if 'stages' in entry:
